@@ -4,7 +4,7 @@
   listener maintains from announcements alone).  "Before it takes effect" is an ordering fact inside one
   Python call and is observed by the harness (the listener reads the netlist inside the callback).
 -/
-import Spydr.IR.EventsLemmas2
+import Spydr.IR.EventsLemmas3
 import Spydr.IR.Props.C14
 namespace Spydr.IR
 
@@ -19,9 +19,10 @@ def isVetoedCreate : Op → Bool
   | _ => false
 
 /-- **A listener that merely replays the announcements of a call holds the mirror of the new state.**
-    PARTIAL: proved for every non-bulk call that is not a re-pointing of an already referenced instance.
-    Missing: (a) the eight bulk variants (`remove_*_from`, `disconnect_pins_from`): their announcement
-    lists are modelled and compared with the implementation, the fold over them is not proved;
+    PARTIAL: proved for every call (the five plain bulk removals included) except three bulk variants and
+    re-pointing. Missing: (a) `remove_ports_from`, `remove_pins_from`, `disconnect_pins_from`: their
+    announcement lists (removals interleaved with implied disconnects) are modelled and compared with the
+    implementation, the fold over them is not proved;
     (b) re-pointing re-keys outer pins BY POSITION in the port/pin lists, and positions/reorders are not
     announced, so no order-free mirror can reproduce it (recorded as a finding). Full statement:
     `∀ op, Inv s → (step s op).2 = .ok → replayAllM s.abs (eventsOf s nI op) = (step s op).1.abs`. -/
@@ -34,14 +35,14 @@ theorem replay_mirror_partial (s : S) (nI : Nat) (op : Op) (h : Inv s) (hok : (s
     | false => exact mirror_addLibrary s nI n l pos h hok
     | true => simp [step] at hok; split at hok <;> simp at hok
   | removeLibrary n l => exact mirror_removeLibrary s nI n l h hok
-  | removeLibrariesFrom n ls => simp [isBulk] at hnb
+  | removeLibrariesFrom n ls => exact mirror_removeLibrariesFrom s nI n ls h hok
   | setLibraries n ls => exact mirror_setLibraries s nI n ls h hok
   | addDefinition l d pos veto =>
     cases veto with
     | false => exact mirror_addDefinition s nI l d pos h hok
     | true => simp [step] at hok; split at hok <;> simp at hok
   | removeDefinition l d => exact mirror_removeDefinition s nI l d h hok
-  | removeDefinitionsFrom l ds => simp [isBulk] at hnb
+  | removeDefinitionsFrom l ds => exact mirror_removeDefinitionsFrom s nI l ds h hok
   | setDefinitions l ds => exact mirror_setDefinitions s nI l ds h hok
   | addPort d p pos veto =>
     cases veto with
@@ -55,14 +56,14 @@ theorem replay_mirror_partial (s : S) (nI : Nat) (op : Op) (h : Inv s) (hok : (s
     | false => exact mirror_addCable s nI d c pos h hok
     | true => simp [step] at hok; split at hok <;> simp at hok
   | removeCable d c => exact mirror_removeCable s nI d c h hok
-  | removeCablesFrom d cs => simp [isBulk] at hnb
+  | removeCablesFrom d cs => exact mirror_removeCablesFrom s nI d cs h hok
   | setCables d cs => exact mirror_setCables s nI d cs h hok
   | addChild d i pos veto =>
     cases veto with
     | false => exact mirror_addChild s nI d i pos h hok
     | true => simp [step] at hok; split at hok <;> simp at hok
   | removeChild d i => exact mirror_removeChild s nI d i h hok
-  | removeChildrenFrom d is => simp [isBulk] at hnb
+  | removeChildrenFrom d is => exact mirror_removeChildrenFrom s nI d is h hok
   | setChildren d is => exact mirror_setChildren s nI d is h hok
   | createChild d i ref veto =>
     cases veto with
@@ -74,7 +75,7 @@ theorem replay_mirror_partial (s : S) (nI : Nat) (op : Op) (h : Inv s) (hok : (s
   | setPins p qs => exact mirror_setPins s nI p qs h hok
   | addWire c w pos => exact mirror_addWire s nI c w pos h hok
   | removeWire c w => exact mirror_removeWire s nI c w h hok
-  | removeWiresFrom c ws => simp [isBulk] at hnb
+  | removeWiresFrom c ws => exact mirror_removeWiresFrom s nI c ws h hok
   | setWires c ws => exact mirror_setWires s nI c ws h hok
   | connectInner w q pos => exact mirror_connectInner s nI w q pos h hok
   | connectOuter w i q pos => exact mirror_connectOuter s nI w i q pos h hok
